@@ -78,14 +78,8 @@ Definition dim_eqb (a b : dim) : bool :=
   end.
 
 (* "The keys need to be of size appropriate for a selected cipher in ticketCipher, 32 bytes for
-   'aes256gcm' and 'chacha20-poly1305', 16 bytes for 'aes128-gcm'" (docstring of ticketKeys) *)
-Definition ticket_key_len (cipher : val) : list Z :=
-  match cipher with
-  | VStr s => if existsb (String.eqb s) ["aes128gcm"; "aes128ccm"; "aes128ccm_8"]%string then [16]
-              else if existsb (String.eqb s) ["aes256gcm"; "aes256ccm"; "aes256ccm_8"; "chacha20-poly1305"]%string
-                   then [32] else [16; 32]
-  | _ => [16; 32]
-  end.
+   'aes256gcm' and 'chacha20-poly1305', 16 bytes for 'aes128-gcm'" (docstring of ticketKeys):
+   16 for the AES-128 ciphers, 32 for every other one = Model.ticket_key_len *)
 
 Definition dom (T : tables) (d : dim) (v : vw) : bool :=
   let c := VS v in
@@ -138,9 +132,7 @@ Definition dom (T : tables) (d : dim) (v : vw) : bool :=
       forallb (fun x => in_ztab x (t_ecpf T)) (VG v F_ec_point_formats)
       && val_in (VInt (t_ecpf_uncompressed T)) (VG v F_ec_point_formats)
   | D_dc_sig_algs =>              (* RFC 9345: rsa_pss_rsae_* "are not allowed for use with delegated credentials" *)
-      forallb (fun x => match x with
-                        | VPair a b => negb (existsb (fun t => (fst t =? a) && (snd t =? b)) (t_dc_forbidden T))
-                        | _ => true end) (VG v F_dc_sig_algs)
+      negb (existsb (forbidden_alg T) (VG v F_dc_sig_algs))
   | D_dc_valid_time => dc_valid_time c <=? t_dc_valid_time T
   | D_compression =>
       sub_tab (VG v F_certificate_compression_send) (t_comp_send T)
@@ -149,7 +141,7 @@ Definition dom (T : tables) (d : dim) (v : vw) : bool :=
       forallb (fun x => has_len_in x [2; 3] && negb (bad_psk_hash x)) (VG v F_pskConfigs)
   | D_psk_modes => sub_tab (VG v F_psk_modes) (t_psk_modes T)
   | D_ticketCipher => in_tab (ticketCipher c) (t_ticket_ciphers T)
-  | D_ticketKeys => forallb (fun x => has_len_in x (ticket_key_len (ticketCipher c))) (VG v F_ticketKeys)
+  | D_ticketKeys => forallb (fun x => has_len_in x [ticket_key_len (ticketCipher c)]) (VG v F_ticketKeys)
   | D_ticketLifetime => (0 <? ticketLifetime c) && (ticketLifetime c <=? 604800)
   | D_max_early_data => (0 <? max_early_data c) && (max_early_data c <=? 2 ^ 64)
   | D_ticket_count => (0 <=? ticket_count c) && (ticket_count c <? 2 ^ 16)
@@ -157,16 +149,9 @@ Definition dom (T : tables) (d : dim) (v : vw) : bool :=
 
 Definition in_domain (T : tables) (v : vw) : bool := forallb (fun d => dom T d v) all_dims.
 
-(* dimensions on which validate() is laxer than the documentation (see design/C19.md) *)
-Definition lax_dims : list dim := [D_dc_sig_algs; D_ticketKeys].
-Definition is_lax (d : dim) : bool := existsb (dim_eqb d) lax_dims.
-(* what validate() really enforces on the lax dimensions *)
-Definition dom_enforced (T : tables) (d : dim) (v : vw) : bool :=
-  match d with
-  | D_dc_sig_algs => true
-  | D_ticketKeys => forallb (fun x => has_len_in x [16; 32]) (VG v F_ticketKeys)
-  | _ => dom T d v
-  end.
+(* Before /repo 8cc633e and c50a338 validate() was laxer than the documentation on D_dc_sig_algs and
+   D_ticketKeys (rejects_outside_domain held for the other 30 dimensions only); now every dimension is
+   enforced as documented. *)
 
 (* ---- supported by the running installation ---------------------------------------------------- *)
 Definition impl_available (I : install) (x : val) : bool :=
